@@ -58,6 +58,85 @@ def capacity(prog, f, dest):
     return None, 'destination %s is a pointer (capacity not visible here)' % f.s(d)
 
 
+def _linear_extent(prog, f, dest, cnt, esz, bd):
+    """dest = ARRAY + off  or  &ARRAY[off]: returns (ok, capacity, description, form string, bound) or None"""
+    from .bufacc import lin, ladd, lscale
+    d = f.unwrap(dest)
+    if d['k'] == 'UnaryOperator' and d.get('op') == '&':
+        sub = f.unwrap(f.N[d['kids'][0]])
+        if sub['k'] != 'ArraySubscriptExpr':
+            return None
+        base, offn, psz = f.unwrap(f.N[sub['kids'][0]]), f.N[sub['kids'][1]], sub.get('sz', 1)
+    elif d['k'] == 'BinaryOperator' and d.get('op') == '+':
+        a, b = f.unwrap(f.N[d['kids'][0]]), f.unwrap(f.N[d['kids'][1]])
+        if a.get('t', '').rstrip().endswith((']', '*')):
+            base, offn = a, f.N[d['kids'][1]]
+        else:
+            base, offn = b, f.N[d['kids'][0]]
+        psz = d.get('psz', 1)
+    else:
+        return None
+    t = base.get('t', '')
+    if not (t.rstrip().endswith(']') and 'sz' in base):
+        return None
+    cap = base['sz']
+    try:
+        E = ladd(lscale(lin(f, offn), psz), lscale(lin(f, f.unwrap(cnt)), esz))
+    except Exception:
+        return None
+    from .bufacc import lin_str
+    pt = f.cfg.point(dest)
+
+    def node_of(atom):
+        for x in f.walk():
+            if x.get('t') and x['k'] in ('DeclRefExpr', 'MemberExpr') and f.s(x) == atom:
+                return x
+        return None
+
+    from .bounds import type_range
+
+    def bound(F, depth):
+        """smallest provable numeric upper bound of linear form F, or None (every atom is tried as the next one to eliminate)"""
+        atoms = [(a, c) for a, c in F.items() if a != '' and c != 0]
+        if not atoms:
+            return F.get('', 0)
+        if depth > 5:
+            return None
+        best = None
+        for a, c in atoms:
+            an = node_of(a)
+            if an is None:
+                continue
+            b = bd.ev_at(an, pt) if pt else bd.ev(an)
+            tr = type_range(an.get('t'))
+            rest = {k_: v_ for k_, v_ in F.items() if k_ != a}
+            cands = []
+            if c > 0:
+                if b.hi is not None and not (tr and b.hi >= tr[1]):
+                    cands.append(ladd(rest, {'': c * b.hi}))
+                for (o, s_) in b.ubs:
+                    try:
+                        L = lin_str(s_)
+                    except Exception:
+                        continue
+                    if a in L or any(k_.startswith('#') for k_ in L):
+                        continue
+                    cands.append(ladd(rest, lscale(ladd(L, {'': -1 if o == '<' else 0}), c)))
+            else:
+                if b.lo is not None and not (tr and b.lo <= tr[0]):
+                    cands.append(ladd(rest, {'': c * b.lo}))
+            for C in cands:
+                v = bound({k_: v_ for k_, v_ in C.items() if v_ != 0 or k_ == ''}, depth + 1)
+                if v is not None and (best is None or v < best):
+                    best = v
+        return best
+    total = bound(E, 0)
+    form = ' + '.join('%d*%s' % (c, a) for a, c in E.items() if a and c) + (' + %d' % E.get('', 0) if E.get('', 0) else '')
+    if total is None:
+        return ('unknown', cap, f.s(base), form or '0', 'no upper bound provable')
+    return (total <= cap, cap, f.s(base), form or '0', total)
+
+
 def check_sinks(ctx, prog, eff, rule, fns, skip=()):
     n = 0
     for f in fns:
@@ -83,6 +162,23 @@ def check_sinks(ctx, prog, eff, rule, fns, skip=()):
         k = 0
         for (c, d, cnt, esz, what) in sinks:
             cap, desc = capacity(prog, f, d)
+            if cap is None and desc in ('pointer arithmetic with non-constant offset', 'subscripted destination with non-constant index'):
+                # destination = array + variable offset: extent = offset * element size + count * item size as ONE linear form, so that
+                # `block + k` with count `n - k` is seen as n (interval arithmetic on the two terms separately would lose the correlation)
+                r_ = _linear_extent(prog, f, d, cnt, esz or 1, bd)
+                if r_ is not None and r_[0] == 'unknown':
+                    ctx.notes.append('BOUNDED-SINK not decided (no provable bound for the linear extent %s into %s, %d bytes) at %s' % (r_[3], r_[2], r_[1], f.loc(c)))
+                    continue
+                if r_ is not None:
+                    k += 1
+                    n += 1
+                    key = '%s:%s:%s@%d' % (f.name, what.replace(' ', '_'), r_[2], k)      # the destination object is part of the identity
+                    if key in skip:
+                        continue
+                    ok_, cap_, desc_, form_, hi_ = r_
+                    ctx.ob(rule, key, ok_, f.loc(c), '%s into %s (%d bytes) at a variable offset: offset + length = %s <= %s%s' % (what, desc_, cap_, form_, hi_, '' if ok_ else
+                           ' — NOT within the %d bytes of the destination' % cap_), None)
+                continue
             if cap is None:
                 continue      # destination is a pointer: handled by the guarded-access rules of the owning property
             k += 1
